@@ -31,6 +31,8 @@ func main() {
 		switch prop {
 		case "C16":
 			runC16(h)
+		case "C16race":
+			runC16Race(h)
 		case "C17":
 			runC17(h)
 		default:
